@@ -95,6 +95,7 @@ class Summary:
     env: dict
     loops: dict
     binding: dict
+    normal: tuple = TRUE   # condition under which the call returns (does not raise)
 
 
 class State:
@@ -222,7 +223,9 @@ class Executor:
             if end.dead is None:
                 rets.append((end.guard, NONE))
             ret = T.mk_phi(rets)
-            summ = Summary(func, run.events, ret, end.env, dict(self.loops), binding)
+            normal = T.mk_or([g for g, _ in rets]) if any(e.kind == 'raise' for e in run.events) \
+                else TRUE
+            summ = Summary(func, run.events, ret, end.env, dict(self.loops), binding, normal)
         finally:
             self._stack.pop()
         if mkey is not None:
@@ -954,6 +957,8 @@ class _Run:
             return t
         summ = self.ex.run(f, binding, self.depth + 1)
         self.embed(summ, node, st)
+        if summ.normal != TRUE:
+            st.guard = T.mk_and([st.guard, summ.normal])
         if f.name == '__init__':
             return recv
         return summ.ret
@@ -967,6 +972,8 @@ class _Run:
         self.emit('propget' if is_prop else 'call', node, st,
                   call=('call', ('g', f.qname), (binding.get('self'),), ()), inlined=True)
         self.embed(summ, node, st)
+        if summ.normal != TRUE:
+            st.guard = T.mk_and([st.guard, summ.normal])
         return summ.ret
 
     def bind(self, f: Func, args, kws) -> Optional[dict]:
